@@ -159,7 +159,24 @@ func (x *Exec) flushFacts(st *State) {
 	st.pc = x.S.Define("pc", "Bool", And(append([]string{st.pc}, fs...)...))
 }
 
+// branch adds a control-flow condition to the path condition.
+func (x *Exec) branch(st *State, cond string) {
+	if cond == "true" {
+		return
+	}
+	st.pc = x.S.Define("pc", "Bool", And(st.pc, cond))
+}
+
 func (x *Exec) assume(st *State, cond string) {
+	if x.quiet > 0 {
+		// inside a spec-level call of real code: facts (well-formedness of loaded
+		// values, assumed library contracts) must not become part of the branch
+		// conditions that select the result; keep closed ones as global facts
+		if cond != "true" && x.S.Inline == 0 {
+			x.pendingFacts = append(x.pendingFacts, cond)
+		}
+		return
+	}
 	x.flushFacts(st)
 	if cond == "true" {
 		return
